@@ -189,6 +189,18 @@ def install():
     Strat._submit_sell_orders = _submit_sell_orders
     Broker.reduce_position_at = reduce_position_at
 
+    # ---------------------------------------------------------------- active-list pruning (C05)
+    from jesse.store.state_orders import OrdersState
+    ORIG['update_active_orders'] = OrdersState.update_active_orders
+
+    def update_active_orders(self, exchange, symbol):
+        ORIG['update_active_orders'](self, exchange, symbol)
+        c = C.cur()
+        if c is not None and c.in_session:
+            c.dispatch('pruned', self, exchange, symbol)
+
+    OrdersState.update_active_orders = update_active_orders
+
     # ---------------------------------------------------------------- candle feed (feed horizon)
     ORIG['add_candle'] = CandlesState.add_candle
     ORIG['add_multiple_1m_candles'] = CandlesState.add_multiple_1m_candles
